@@ -41,7 +41,7 @@ def parts(s): return [p.strip() for p in s.split(' ; ')]
 def proj_c16(c):
     """open: the three results; seg: recreated flag, image without the four padding bytes of the
     record copy (an input of the model, taken from the observation), fresh-reader result"""
-    if kind(c) == 'open':
+    if kind(c) in ('open', 'open0'):
         return (parts(c.impl), parts(c.model))
     def seg(a):
         t = a.split()
@@ -74,8 +74,8 @@ PROPS_HEADER = {
     level_text='Theorems C16.open_ok_iff / open_error_kind / open_missing / open_directory / open_total characterise the outcome of opening for every list of bytes of every length and the three kinds of path (check order magic -> version -> generation -> declared size; the file\'s real length beyond 16 bytes is irrelevant). C16.repair_roundtrip proves for every prior state but a directory, every in-range record and every padding content that start-up + first publication leaves a file that opens, is re-created exactly when the prior state did not open and is then byte for byte the documented 72-byte image, is otherwise taken over in place (length, magic, declared size unchanged), and from which a fresh reader reads back exactly the record. start_directory states the one exception (EISDIR at start-up); truncated_extended covers a usable header on a file shorter than 72 bytes (grown in place to 72 bytes; repaired defect D6). open_spec / model_holds_open / model_holds_seg tie the decidable oracles to the model.',
     level_note='Trusted: Lean kernel + standard axioms; POSIX file/mmap behaviour is modelled as observed, correspondence is differential testing on real files; an address-space limit (ulimit -v) adds the outcome ENOMEM from mmap (theorems open_ok_iff_lim / open_mmap_refused), which the runs do not exercise.',
     pre='c17',
-    gens=lambda seed, th: [['hdr-open', seed, 60000 if th else 4000], ['hdr-seg', seed, 60000 if th else 4000], ['hdr-snap', seed, 40000 if th else 3000]],
-    relevant=lambda c: kind(c) in ('open', 'seg', 'snap'),
+    gens=lambda seed, th: [['hdr-open', seed, 60000 if th else 4000], ['hdr-seg', seed, 60000 if th else 4000], ['hdr-snap', seed, 40000 if th else 3000], ['crashgrid']],
+    relevant=lambda c: kind(c) in ('open', 'open0', 'seg', 'snap', 'crashpt'),
     project=proj_c16,
     nontrivial=lambda c: (kind(c) == 'open' and bool(c.tags & {'orderVisible', 'size<72', 'size<16', 'ver0', 'gen0', 'badMagic', 'shortHeader', 'dir', 'missing', 'sizeMax'}))
                          or (kind(c) == 'seg' and bool(c.tags & {'recreated', 'takenOver'}) and not ({'missing'} & c.tags)),
